@@ -11,27 +11,27 @@ def absTTuA (g : RcObserver) : St2 := .takeUntil g.isSome
 def absTTuB (g : TakeUntilNotifierObserver) : St2 := .takeUntil g.main_observer.isSome
 
 theorem tieT_Tu_a_next (g : RcObserver) (v : Val) :
-    (RcObserver.next g v).map (fun r => (absTTuA r.1, r.2)) = some (St2.step (absTTuA g) .a (.next v)) := by
+    (RcObserver.next g v).map (fun r => (absTTuA r.1, r.2)) = some (Rs.lift (St2.step (absTTuA g) .a (.next v))) := by
   cases g <;> rs_tie [RcObserver.next, absTTuA, St2.step, St2.guard]
 
 theorem tieT_Tu_a_error (g : RcObserver) (e : Err) :
-    (RcObserver.error g e).map (fun r => (absTTuA r.1, r.2)) = some (St2.step (absTTuA g) .a (.error e)) := by
+    (RcObserver.error g e).map (fun r => (absTTuA r.1, r.2)) = some (Rs.lift (St2.step (absTTuA g) .a (.error e))) := by
   cases g <;> rs_tie [RcObserver.error, absTTuA, St2.step, St2.guard]
 
 theorem tieT_Tu_a_complete (g : RcObserver) :
-    (RcObserver.complete g).map (fun r => (absTTuA r.1, r.2)) = some (St2.step (absTTuA g) .a .complete) := by
+    (RcObserver.complete g).map (fun r => (absTTuA r.1, r.2)) = some (Rs.lift (St2.step (absTTuA g) .a .complete)) := by
   cases g <;> rs_tie [RcObserver.complete, absTTuA, St2.step, St2.guard]
 
 theorem tieT_Tu_b_next (g : TakeUntilNotifierObserver) (v : Val) :
-    (TakeUntilNotifierObserver.next g v).map (fun r => (absTTuB r.1, r.2)) = some (St2.step (absTTuB g) .b (.next v)) := by
+    (TakeUntilNotifierObserver.next g v).map (fun r => (absTTuB r.1, r.2)) = some (Rs.lift (St2.step (absTTuB g) .b (.next v))) := by
   rcases g with ⟨_ | _⟩ <;> rs_tie [TakeUntilNotifierObserver.next, RcObserver.complete, absTTuB, St2.step, St2.guard]
 
 theorem tieT_Tu_b_error (g : TakeUntilNotifierObserver) (e : Err) :
-    (TakeUntilNotifierObserver.error g e).map (fun r => (absTTuB r.1, r.2)) = some (St2.step (absTTuB g) .b (.error e)) := by
+    (TakeUntilNotifierObserver.error g e).map (fun r => (absTTuB r.1, r.2)) = some (Rs.lift (St2.step (absTTuB g) .b (.error e))) := by
   rcases g with ⟨_ | _⟩ <;> rs_tie [TakeUntilNotifierObserver.error, absTTuB, St2.step, St2.guard]
 
 theorem tieT_Tu_b_complete (g : TakeUntilNotifierObserver) :
-    (TakeUntilNotifierObserver.complete g).map (fun r => (absTTuB r.1, r.2)) = some (St2.step (absTTuB g) .b .complete) := by
+    (TakeUntilNotifierObserver.complete g).map (fun r => (absTTuB r.1, r.2)) = some (Rs.lift (St2.step (absTTuB g) .b .complete)) := by
   rcases g with ⟨_ | _⟩ <;> rs_tie [TakeUntilNotifierObserver.complete, absTTuB, St2.step, St2.guard]
 
 
